@@ -1312,18 +1312,22 @@ impl Drop for Debugger {
 
 /// Read N bytes from `PID` process.
 pub fn read_memory_by_pid(pid: Pid, addr: usize, read_n: usize) -> Result<Vec<u8>, nix::Error> {
-    let mut read_reminder = read_n as isize;
     let mut result = Vec::with_capacity(read_n);
 
     let single_read_size = mem::size_of::<c_long>();
 
-    let mut addr = addr as *mut c_long;
-    while read_reminder > 0 {
-        let value = sys::ptrace::read(pid, addr as *mut c_void)?;
-        result.extend(value.to_ne_bytes().into_iter().take(read_reminder as usize));
+    // Read aligned words: an aligned word never crosses a page boundary, so only pages
+    // that hold requested bytes are touched (an unaligned word at the end of a mapping
+    // would reach into the next, possibly unmapped, page and fail the whole read).
+    let mut skip = addr % single_read_size;
+    let mut word_addr = addr - skip;
+    while result.len() < read_n {
+        let value = sys::ptrace::read(pid, word_addr as *mut c_void)?;
+        let remains = read_n - result.len();
+        result.extend(value.to_ne_bytes().into_iter().skip(skip).take(remains));
 
-        read_reminder -= single_read_size as isize;
-        addr = unsafe { addr.offset(1) };
+        skip = 0;
+        word_addr = word_addr.wrapping_add(single_read_size);
     }
 
     debug_assert!(result.len() == read_n);
